@@ -121,7 +121,7 @@ def _chunk(seeds):
             mkind = mutate(case, rnd)
         conforming = rnd.random() < 0.6
         if conforming:
-            case["root"] = gqlmini.gen_conforming_obj(rnd, "Query", 3)
+            case["root"] = gqlmini.prune(gqlmini.gen_conforming_obj(rnd, "Query", 3), gqlmini.doc_field_names(case["doc"]))
         text = gqlmini.render_doc(case)
         try:
             doc = parse(text)
